@@ -167,6 +167,7 @@ fn run(args: &[String], tier: &str) -> i32 {
         "c16-child" => c16::child(args),
         "c16-load" => c16::load_child(args),
         "c16-small" => c16::small_child(args),
+        "c05-rotating" => c05::rotating_child(args),
         "C17" => c17::run(tier),
         "C18" => c18::run(tier),
         "c18-child" => c18::child(args),
